@@ -5,20 +5,87 @@ from .core import ob
 CADICAL = ["--sat-solver", "cadical"]
 
 # ----------------------------------------------------------------------------- hbitio.c: Hbitseek, HIwrite2read, HIread2write
-BSW = dict(unit="hbitio_sw_u.c", file="hdf/src/hbitio.c", objbits=10, cex_unwind=2, flags=["--arrays-uf-always"],
+BSW = dict(unit="hbitio_sw_u.c", file="hdf/src/hbitio.c", objbits=10, cex_unwind=8, flags=["--arrays-uf-always"],
            trusted=["ghost element behind Hwrite/Hread/Hseek: length, position, value of ONE ghost byte; a range read is checked "
                     "for accessibility and havocked except that byte", "HAatom_object: the harness-built record for its id",
                     "A-BIT-2G: max_offset <= 2^31-1 - 2*BITBUF_SIZE"])
-_SEEK = {"w_inblock": (1, "write mode, target inside the buffered block"),
-         "w_full": (2, "write mode, target in another block that holds a full BITBUF_SIZE of data"),
-         "w_tail": (3, "write mode, target in another block that holds fewer than BITBUF_SIZE bytes of data"),
-         "r": (4, "read mode"), "badargs_w": (5, "rejected arguments, write mode"), "badargs_r": (6, "rejected arguments, read mode")}
-for _n, (_d, _txt) in _SEEK.items():
-    ob(f"bit_seek_{_n}", "C05", entry="h_bitseek", enforce="Hbitseek", defines=[f"SEEK_DOM={_d}"], timeout=300,
+# Partition of each contract's domain into sub-domains (one run each; the mode disjunct of requires/ensures is selected with
+# the sub-domain: with `write-mode || read-mode` in one clause cbmc's symbolic execution alone needs > 60 s).  Cost is
+# dominated by the real 4096-byte buffer object (BITBUF_SIZE is a plain #define of hbitio.c, not overridable with -D):
+# --arrays-uf-always brings HIwrite2read to ~60-75 s; everything slower is tier "thorough".
+_SEEK = {"w_inblock": (1, "write mode, target inside the buffered block", "thorough"),          # 190 s under load
+         "w_tail": (3, "write mode, target in another block that holds fewer than BITBUF_SIZE bytes of data", "thorough"),  # 180 s; FAILS on HEAD (defect)
+         "badargs_w": (5, "rejected arguments, write mode", "thorough")}                       # 147 s
+# NOT REGISTERED (resources, measured on this image with 3 jobs): SEEK_DOM=2 "w_full" (write mode, other block holding a full
+# buffer of data): no answer in 900 s; SEEK_DOM=4 "r" and SEEK_DOM=6 "badargs_r" (read-mode record in the requires): SAT
+# conversion out of memory (10 GB) after ~160 s, also with -DBSW_POSONLY (content clauses off): > 400 s.  The read-mode
+# seek is covered by HIwrite2read (which runs Hbitseek in read mode, both the same-block and the other-block path) and by
+# the registered bounded history bit_seek.
+for _n, (_d, _txt, _tier) in _SEEK.items():
+    ob(f"bit_seek_{_n}", "C05", entry="h_bitseek", enforce="Hbitseek", defines=[f"SEEK_DOM={_d}"], timeout=900, tier=_tier,
        domain=_txt, **BSW)
-ob("bit_w2r_blk0", "C05", entry="h_write2read", enforce="HIwrite2read", defines=["SW_DOM=1"], timeout=300,
+ob("bit_w2r_blk0", "C05", entry="h_write2read", enforce="HIwrite2read", defines=["SW_DOM=1"], timeout=600,
    domain="the first block is buffered (block_offset == 0)", **BSW)
-ob("bit_w2r_blkN", "C05", entry="h_write2read", enforce="HIwrite2read", defines=["SW_DOM=2"], timeout=300,
+ob("bit_w2r_blkN", "C05", entry="h_write2read", enforce="HIwrite2read", defines=["SW_DOM=2"], timeout=600,
    domain="a later block is buffered (block_offset >= BITBUF_SIZE)", **BSW)
+# -DBSW_SIZE adds "the element on disk does not extend beyond max_offset" to the post-states: FAILS on HEAD (HIbitflush write-out size)
+ob("bit_w2r_blkN_size", "C05", entry="h_write2read", enforce="HIwrite2read", defines=["SW_DOM=2", "BSW_SIZE"], timeout=600, tier="thorough",
+   domain="a later block is buffered; plus the stored-size clause", **BSW)
+# HIread2write: all three sub-domains FAIL on HEAD (defects); 80-120 s each
 for _n, _d in (("aligned", 1), ("afterseek", 2), ("afterread", 3)):
-    ob(f"bit_r2w_{_n}", "C05", entry="h_read2write", enforce="HIread2write", defines=[f"SW_DOM={_d}"], timeout=300, **BSW)
+    ob(f"bit_r2w_{_n}", "C05", entry="h_read2write", enforce="HIread2write", defines=[f"SW_DOM={_d}"], timeout=900, tier="thorough", **BSW)
+
+# ----------------------------------------------------------------------------- crle.c: seek / endaccess / state reset
+NOMF = dict(flags=["--no-malloc-may-fail"], gi_flags=["--no-malloc-may-fail"])  # allocation failure is out of scope (DESIGN 10.5)
+CSK = dict(unit="crle_seek_u.c", file="hdf/src/crle.c", cex_unwind=14, objbits=10, **NOMF,
+           trusted=["Hseek/HDputc/Hwrite/Hendaccess stubs: count rewinds, writes, releases; nondeterministic failure",
+                    "HCIcrle_decode replaced by the offset-accounting clause of the registered contract crle_decode_wf"])
+ob("crle_seek_init", "C05", entry="h_crle_seek_init", enforce="HCIcrle_init", **CSK)
+ob("crle_seek_term", "C05", entry="h_crle_seek_term", enforce="HCIcrle_term", **CSK)
+_RLE_HELPERS = ["HCIcrle_init", "HCIcrle_term", "HCIcrle_decode"]
+ob("crle_seek", "C05", entry="h_crle_seek", enforce="HCPcrle_seek", replace=_RLE_HELPERS, loops=True, nloops=1, loopcls="P", **CSK)
+ob("crle_endaccess", "C05", entry="h_crle_endaccess", enforce="HCPcrle_endaccess", replace=_RLE_HELPERS, **CSK)
+# decoder state on an access that can write (read on a read/write access, then seek back / end access):
+ob("crle_seek_rdwr", "C05", entry="h_crle_seek", enforce="HCPcrle_seek", replace=_RLE_HELPERS, loops=True, nloops=1, loopcls="P",
+   defines=["SEEK_HIST=1"], **CSK)
+ob("crle_endaccess_rdwr", "C05", entry="h_crle_endaccess", enforce="HCPcrle_endaccess", replace=_RLE_HELPERS, defines=["SEEK_HIST=1"], **CSK)
+
+# coder restart (term + init as HCPcrle_seek's backward branch does) with the packet-protocol stubs of crle_u.c (harness added to that unit)
+ob("crle_restart3", "C05", unit="crle_u.c", file="hdf/src/crle.c", entry="h_crle_restart", mode="bounded", objbits=11,
+   bound="streams A and B of <= 3 bytes each (full alphabet): init, encode A, term, init (the backward-seek branch of HCPcrle_seek), encode B, term",
+   unwind=5, cex_unwind=5, defines=["RS_N=3", "RLE_LOOP_COPY"], timeout=600, flags=["--sat-solver", "cadical"],
+   trusted=["byte-loop models of memcpy/memset (source re-based on the typed RLE buffer)", "packet-protocol stubs of crle_u.c"])
+
+# ----------------------------------------------------------------------------- cskphuff.c: seek
+ob("cskphuff_seek", "C05", unit="cskphuff_seek_u.c", file="hdf/src/cskphuff.c", entry="h_cskphuff_seek", enforce="HCPcskphuff_seek",
+   replace=["HCIcskphuff_init", "HCIcskphuff_decode"], loops=True, nloops=1, loopcls="P", cex_unwind=14, objbits=10, timeout=600, **NOMF,
+   trusted=["HCIcskphuff_init / HCIcskphuff_decode replaced by counting contracts (offset accounting), not proved here"])
+
+# ----------------------------------------------------------------------------- cdeflate.c: seek
+CDF = dict(unit="cdeflate_seek_u.c", file="hdf/src/cdeflate.c", entry="h_cdeflate_seek", enforce="HCPcdeflate_seek",
+           replace=["HCIcdeflate_staccess2", "HCIcdeflate_term", "HCIcdeflate_decode"], loops=True, nloops=1, loopcls="P",
+           cex_unwind=14, objbits=10, timeout=600, **NOMF,
+           trusted=["HCIcdeflate_staccess2/_term/_decode (zlib inside) replaced by counting contracts, not proved here", "Hseek: counts rewinds"])
+ob("cdeflate_seek", "C05", domain="target inside the data (every decode delivers what was asked)", **CDF)
+# target beyond the end of the data: a decode may deliver fewer bytes (0 at the end of the stream) -- the skip loop must still end
+ob("cdeflate_seek_eos", "C05", defines=["EOS"], domain="target possibly beyond the end of the data", **CDF)
+
+# ----------------------------------------------------------------------------- cnone.c: seek
+CNO = dict(unit="cnone_seek_u.c", file="hdf/src/cnone.c", entry="h_cnone_seek", enforce="HCPcnone_seek", cex_unwind=8,
+           trusted=["Hseek: ghost element position, applies origin as Hseek does"])
+ob("cnone_seek_start", "C05", defines=["ORIGIN_START"], domain="origin == DF_START", **CNO)
+ob("cnone_seek", "C05", domain="any origin (HCPseek passes its own origin on after resolving it): FAILS on HEAD for DF_CURRENT / DF_END", **CNO)
+
+# ----------------------------------------------------------------------------- cnbit.c: seek (loop-free), decode partition
+CNB = dict(unit="cnbit_seek_u.c", file="hdf/src/cnbit.c", objbits=10, cex_unwind=8,
+           trusted=["Hbitseek: logs the bit position, fails on demand", "Hbitread: delivers the ghost stream bytes in order", "HDmemfill: byte loop"])
+for _nt in (1, 4):
+    ob(f"cnbit_seek_nt{_nt}", "C05", entry="h_cnbit_seek", enforce="HCPcnbit_seek", defines=[f"NB_NT={_nt}"], timeout=300,
+       domain=f"nt_size == {_nt} (one run per constant: the target is divided by nt_size), any mask_len 1..8*nt_size", **CNB)
+# NOT REGISTERED (resources): entry h_cnbit_decode_partition (HCIcnbit_decode, two reads of L1 then L2 one-byte values, identity
+# projection).  No answer in 600 s, neither with symbolic L1, L2 in 1..3 nor with constants (-DNB_L1=1 -DNB_L2=2): the 6 KB
+# coder-state object, as the first author found for HCIcnbit_init.  The harness runs natively (replay build): L1=1, L2=2 FAILS
+# its check "partitioned reads deliver the stream values in order" on HEAD, L1=2, L2=1 passes -- see the report.
+# for _l1, _l2 in ((2, 1), (2, 2), (1, 2), (1, 3)):
+#     ob(f"cnbit_decode_part_{_l1}_{_l2}", "C05", entry="h_cnbit_decode_partition", mode="bounded", unwind=8, timeout=600,
+#        defines=[f"NB_L1={_l1}", f"NB_L2={_l2}"], bound=f"nt_size 1, identity projection; a read of {_l1} value(s), then of {_l2}", **CNB)
